@@ -61,6 +61,8 @@ impl FlyClientPDF {
     //   - Inverse Function of CDF: $$h(x) = F^{-1}(x) = 1 - \delta^{x}$$
     fn gen_x(&self) -> f64 {
         let mut rng = thread_rng();
+        #[cfg(feature = "verif")]
+        let mut rng = crate::verif_hooks::rng();
         let x: f64 = rng.gen_range(0.0..self.x_max);
         1.0 - self.delta.powf(x)
     }
